@@ -95,7 +95,7 @@ Section Conv.
 
 
   Definition b2n_int_body : stmt :=
-    (SSeq (SAssign (TVar "decimal_number"%string) (EBin Add (EBin Mul (EVar "decimal_number"%string) (EInt (2))) (EVar "a_bit"%string)))
+    (SSeq (SAssign (TVar "decimal_number"%string) (EBin Add (EBin Mul (EVar "decimal_number"%string) (EInt (2))) (EB1 BInt (EVar "a_bit"%string))))
     (SIf (EVar "verbose"%string)
       (SExpr (ETuple [(EBin Add (EVar "index"%string) (EInt (1))); (EB1 BLen (EVar "bit_array"%string))]))
       SSkip)).
@@ -109,7 +109,7 @@ Section Conv.
   Proof.
     induction bits as [|a bits IH]; intros i d en HD HV HA.
     - exists en. split; [reflexivity|exact HD].
-    - cbn [map enumerate_from for_loop]. unfold b2n_int_body at 1. step. lk. rewrite HD. step. lk. rewrite HV. step.
+    - cbn [map enumerate_from for_loop]. unfold b2n_int_body at 1. step. lk. rewrite HD. step. lk. cbn [to_int]. step. lk. rewrite HV. step.
       lk. rewrite HA. step.
       match goal with |- context [ONormal ?E] => set (en1 := E) end.
       assert (EQ : (if verbose then ONormal en1 else ONormal en1) = ONormal en1) by (destruct verbose; reflexivity).
